@@ -67,6 +67,9 @@ type Unit struct {
 	MapOrder    bool              `json:"map_order"`
 	Preemptions int               `json:"preemptions"`
 	EnvFires    int               `json:"env_fires"`
+	// ExtraFiles: harness sources injected into other packages (directory under /repo -> files under
+	// /verif/harness/<dir>/), e.g. an exported constructor next to unexported fields.
+	ExtraFiles map[string][]string `json:"extra_files"`
 	// SchedForks: explore every choice of the next runnable goroutine (default: round-robin).
 	SchedForks bool `json:"sched_forks"`
 	// NativeRewrite: textual substitutions applied (for native runs only) to files of the
@@ -220,6 +223,17 @@ func buildOverlay(spec *Unit) map[string][]byte {
 			panic(err)
 		}
 		ov[filepath.Join(pdir, filepath.Base(f))] = rewritePackageClause(b, pname)
+	}
+	for dir, files := range spec.ExtraFiles {
+		d := filepath.Join(repoDir, dir)
+		dn := pkgNameOf(d)
+		for _, f := range files {
+			b, err := os.ReadFile(filepath.Join(verifDir, "harness", dir, f))
+			if err != nil {
+				panic(err)
+			}
+			ov[filepath.Join(d, f)] = rewritePackageClause(b, dn)
+		}
 	}
 	return ov
 }
